@@ -5,6 +5,8 @@
 -/
 import AnyVecModel.Proofs.Exec
 import AnyVecModel.Proofs.KernelCtor
+import AnyVecModel.Proofs.KernelTempDrop
+import AnyVecModel.Proofs.KernelDrainDrop
 import AnyVecModel.Props.Hist
 namespace AnyVec
 namespace C07
@@ -135,6 +137,25 @@ theorem range_constructors_are_the_source (cfg : Cfg) (w : World) (v : Nat) (lo 
             | .forget => pure out : WM Out) (w.upd v { d with len := len' })) ∧
     Gen.Kernel.splice_new d.len s e = Gen.Kernel.drain_new d.len s e :=
   ⟨KernelTie.drain_ctor_tie cfg w v lo hi typed eats fin d s e hv hl hr, (KernelTie.splice_ctor_tie d s e).2⟩
+
+/-- **source tie**: what a forgotten handle or range iterator leaves undone is exactly what its destructor would
+have done, as the source says on this run: `impl Drop for TempValue` = destructor of the slot, then `consume()`;
+`impl Drop for Drain` = drop the unyielded items, close the gap, restore `len`. Forgetting skips all of it, and the
+constructors (above) have already lowered `len`, so the vector is the prefix. -/
+theorem skipped_destructors_are_the_source (w : World) (h : Handle) (d : VecSt) (hv : w.vecs[h.v]? = some d)
+    (hl : d.live = true) (it : RangeIt) :
+    hDrop h w =
+      (do let slot ← hSlot h
+          if h.typed || d.hasDrop then
+            KernelTie.runCmds (KernelTie.hCtx h) (Gen.Kernel.temp_drop_cmds slot h.typed d.hasDrop)
+          else do
+            let id ← readElem h.v slot
+            dropElem false id
+            KernelTie.runCmds (KernelTie.hCtx h) (Gen.Kernel.temp_drop_cmds slot h.typed d.hasDrop)) w ∧
+    drainDrop it =
+      KernelTie.runCmds { v := it.v, typed := it.typed }
+        (Gen.Kernel.drain_drop_cmds it.index it.end_ it.start it.end0 it.origLen) :=
+  ⟨KernelTie.temp_drop_tie w h d hv hl, KernelTie.drain_drop_tie it⟩
 
 end C07
 end AnyVec
